@@ -16,3 +16,8 @@ Lemma blanks_is_source : gen_blank_chars = [32; 13; 9]%N /\ gen_newline_chars = 
 Proof. vm_compute. repeat split; reflexivity. Qed.
 Lemma alpha_is_source : gen_alpha_classes = ["unicode.IsLetter"; "unicode.IsMark"; "char:95"].
 Proof. vm_compute. reflexivity. Qed.
+
+(** the README's keyword table lists exactly the model's keywords other than [nil], code point for code point *)
+Lemma documented_keywords_is_model :
+  sort_strs ([110; 105; 108]%N :: gen_doc_keywords) = sort_strs (map fst keywords).
+Proof. vm_compute. reflexivity. Qed.
